@@ -301,7 +301,7 @@ SUBS = ["alice", "bob", "admin", "root"]
 OBJS = ["data1", "data2", "/d/x", "/d/*"]
 ACTS = ["read", "write"]
 DOMS = ["dom1", "dom2"]
-LITS = SUBS + OBJS + ACTS + DOMS + ["", "x y"]
+LITS = SUBS + OBJS + ACTS + DOMS + ["", "x y", "x  y", "a   b "]     # runs of blanks inside literals must survive every layout
 PLAIN_LITS = ["data", "/d/", "read", "alice", "a", ""]
 
 
